@@ -94,3 +94,41 @@ PROPS["C14"] = {
     ),
     "note": "Rectangle / width / text-preservation clauses are NOT decided (no sound static bound in reach); see DESIGN.md C14.",
 }
+
+SOURCE_COMMITS.append("7d8b138")  # fix: highlight empty / continuation-led source without KeyError (C20)
+
+_MARKUP_NOTE = (
+    "Eight flows of non-markup text into the markup interpreter are genuine defects recorded in known_findings.json "
+    "(each with a concrete failing input, findings/repro_markup.py) rather than repaired: a repair needs an escaping policy "
+    "at every write site of the trace renderer and changes what applications that put markup into exception messages see. "
+)
+
+PROPS["C04"] = {
+    "claimed": True,
+    "technique": "static analysis: interval evaluation of returned statuses, try-coverage and handler-path checks on the CFG with exceptional edges, call multiplicity, taint dataflow (untrusted text -> markup interpreter)",
+    "text": (
+        "Decides, on every path of ConsoleApplication.run / Command.handle / Command._do_handle: returned statuses lie in 0..255, "
+        "0 only on the falsy arm and >= 1 on every exception arm (interval evaluation with return summaries); io creation, "
+        "resolution and handling are inside the try whose handlers cover Exception and KeyboardInterrupt, every handler path sets "
+        "the status and the only re-raise is under 'exceptions not caught'; the configured handler is invoked at most once and "
+        "never after a pre-handle listener handled the event; handle()/run() call their callee exactly once; the command and its "
+        "arguments come from one resolved command. A taint analysis over the error-report code reachable from run()'s exception "
+        "arm reports every flow of exception/source/file-name text into a markup-interpreting sink that can raise (the 'can raise' "
+        "fact is extracted from the installed pastel source on each run)."
+    ),
+    "note": _MARKUP_NOTE + "The correctness of the printed report is not decided.",
+}
+
+PROPS["C20"] = {
+    "claimed": True,
+    "technique": "static analysis: interprocedural taint dataflow into markup sinks, guard dominance (ignore filter), sibling index expressions, must-write of name and message, Optional-key reaching definitions",
+    "text": (
+        "Decides: (R1) no text that is not authored markup (exception message, source lines, file names) reaches Formatter.format/"
+        "remove_format or a formatted write of IO/Output - interprocedural, through the Highlighter closure - because those sinks can "
+        "raise on an unmatched closing tag; (R2) ignored-path frames are skipped only under 'not debug'; (R3) the marker test and the "
+        "printed line number are the same index expression and numbering starts at 1; (R4) class name and message are written on "
+        "every path of the full report, the message in simple mode; (R5) a token type that may still be None is never used as a key "
+        "of the theme table (reaching definitions over the CFG)."
+    ),
+    "note": _MARKUP_NOTE + "Trace content for all exceptions, verbatim source lines and recursion folding are not decided.",
+}
